@@ -497,6 +497,8 @@ theorem vis_children_ref {d : Doc} {t c : Ticket} {e : Elem} (hd : d t = some e)
 structure ArrDel (h : Hist) (p u : Ticket) (pe ue : Elem) (nodes : List PosNode) (moved : Ticket → Option Ticket) :
     Prop where
   hd : h.doc p = some pe
+  /-- the array is not a tombstone -/
+  hpr : pe.removed = false
   hb : pe.body = .arr nodes moved
   hu : h.doc u = some ue
   hur : ue.removed = false
@@ -522,14 +524,14 @@ theorem undo_do_array_delete_lemma {h : Hist} {p u : Ticket} {pe ue : Elem} {nod
     {moved : Ticket → Option Ticket} (fr : Fresh h) (a : ArrDel h p u pe ue nodes moved) (fuel : Nat) :
     marshal (undo (doChange h [.remove p u h.next])).doc fuel rootId = marshal h.doc fuel rootId := by
   obtain ⟨H, w⟩ := fr.wf
-  obtain ⟨hd, hb, hu, hur, hul, hheld, huniq, hpos, hhead, hposL⟩ := a
+  obtain ⟨hd, hpr, hb, hu, hur, hul, hheld, huniq, hpos, hhead, hposL⟩ := a
   have bd := fr.bd
   -- where `u` sits
   obtain ⟨r, hr⟩ := prefixBefore_isSome u nodes [] hheld
   obtain ⟨pre, nu, C, hnodes, hrr, hnu, hpre⟩ := prefixBefore_split u nodes [] r hr
   simp only [List.append_nil] at hrr
   have hnumem : nu ∈ nodes := by rw [hnodes]; simp
-  have hparu : H.par u = some p := w.arrMem _ _ _ _ _ _ hd hb hnumem hnu
+  have hparu : H.par u = some p := w.arrMem _ _ _ _ _ _ hd hpr hb hnumem hnu
   have hupar : ue.parent = some p := (w.par _ _ hu).trans hparu
   have hpu : p ≠ u := by intro hx; subst hx; rw [hd] at hu; injection hu with hu; subst hu; simp [hb, leafBody] at hul
   -- the forward removal
@@ -655,18 +657,24 @@ theorem undo_do_array_delete_lemma {h : Hist} {p u : Ticket} {pe ue : Elem} {nod
         cases hdoc : h.doc a with
         | none => simp [vis, hda, hdoc, Vis.map]
         | some e =>
+          have her : e.removed = false := by
+            have hla : live h.doc a = true := by
+              rcases ha with ha | ha
+              · exact ha
+              · exact ha ▸ live_of_skel fr.root
+            rw [live_some hdoc] at hla; simpa using hla
           have hch : ∀ c ∈ (vis h.doc a).children, c ≠ u ∧ c ≠ t' := by
             intro c hc
             rcases vis_children_ref hdoc hc with ⟨keys, m, k, mm, hbe, hmm, rfl⟩ | ⟨ns, mv, n, hbe, hn, hne⟩
             · constructor
               · intro hx
-                have := (w.objMem _ _ _ _ _ _ hdoc hbe hmm).2.2
+                have := (w.objMem _ _ _ _ _ _ hdoc her hbe hmm).2.2
                 rw [hx, hparu] at this; injection this with this; exact h2 this.symm
               · intro hx
                 have := bd.child _ _ _ _ _ _ hdoc hbe hmm; rw [hx] at this; omega
             · constructor
               · intro hx
-                have := w.arrMem _ _ _ _ _ _ hdoc hbe hn hne
+                have := w.arrMem _ _ _ _ _ _ hdoc her hbe hn hne
                 rw [hx, hparu] at this; injection this with this; exact h2 this.symm
               · intro hx
                 have := bd.elem _ _ _ _ _ _ hdoc hbe hn hne; rw [hx] at this; omega
@@ -677,7 +685,7 @@ theorem undo_do_array_delete_lemma {h : Hist} {p u : Ticket} {pe ue : Elem} {nod
             rw [hlive2]
             have hc1 : mm.child ≠ u := by
               intro hx
-              have := (w.objMem _ _ _ _ _ _ hdoc hbe hmm).2.2
+              have := (w.objMem _ _ _ _ _ _ hdoc her hbe hmm).2.2
               rw [hx, hparu] at this; injection this with this; exact h2 this.symm
             have hc2 : mm.child ≠ t' := by
               intro hx
@@ -687,7 +695,7 @@ theorem undo_do_array_delete_lemma {h : Hist} {p u : Ticket} {pe ue : Elem} {nod
             rw [hlive2]
             have hc1 : c ≠ u := by
               intro hx
-              have := w.arrMem _ _ _ _ _ _ hdoc hbe hn hne
+              have := w.arrMem _ _ _ _ _ _ hdoc her hbe hn hne
               rw [hx, hparu] at this; injection this with this; exact h2 this.symm
             have hc2 : c ≠ t' := by
               intro hx
